@@ -20,9 +20,10 @@ Qed.
 
 Section L.
 Variable call_ref : nat -> list pv -> pv.
-Notation exec := (exec call_ref).
-Notation exec_block := (exec_block call_ref).
-Notation eval := (PyMini.eval call_ref).
+Variable prim : string -> list pv -> res pv.
+Notation exec := (exec call_ref prim).
+Notation exec_block := (exec_block call_ref prim).
+Notation eval := (PyMini.eval call_ref prim).
 
 Definition block_in := fix block (s : st) (l : list stmt) : res outcome :=
   match l with
@@ -84,7 +85,7 @@ Fixpoint map_res {A B} (f : A -> res B) (l : list A) : res (list B) :=
 
 Lemma eval_listcomp elt x it s s1 l :
   eval s it = Ok (s1, PList l) ->
-  eval s (XListComp elt x it) =
+  eval s (XListComp elt x it None) =
   bind (map_res (fun v => bind (eval (write s1 (TName x) v) elt) (fun p => Ok (snd p))) l)
        (fun vs => Ok (s1, PList vs)).
 Proof.
